@@ -105,8 +105,10 @@ def fresh_of_sort(I, sort, name):
         return VStr(z3.String(n))
     if sort == 'any':
         return VAny(z3.Const(n, PyVal))
-    if sort == 'scalar':      # any value except containers handled specially
-        return VAny(z3.Const(n, PyVal))
+    if sort == 'scalar':      # any value except list / dict / tuple
+        t = z3.Const(n, PyVal)
+        I.ex.assume(z3.Not(z3.Or(PyVal.is_PL(t), PyVal.is_PDi(t), PyVal.is_PT(t))))
+        return VAny(t)
     if sort == 'kind':
         return VKind(z3.Const(n, Kind))
     if sort == 'dtype':
@@ -372,15 +374,31 @@ def ghost_fold(I, step, init, values, k):
     table = getattr(ctx, 'folds', None)
     if table is None:
         table = ctx.folds = {}
-    key = (getattr(step, 'qual', step.name), vs.src_len.sexpr(), to_pyval_id(vs.elem(PROBE)))
-    if key not in table:
-        import os
-        if os.environ.get('PYVC_DEBUG'): print('FOLDKEY', key, vs.src_len, kt)
+    sq = getattr(step, 'qual', step.name)
+    key = None
+    for k2, ent in table.items():
+        if k2[0] != sq:
+            continue
+        ovs = ent[2]
+        if k2[1] == vs.src_len.sexpr() and k2[2] == to_pyval_id(vs.elem(PROBE)):
+            key = k2
+            break
+        goal = z3.And(vs.src_len == ovs.src_len,
+                      z3.Implies(z3.And(PROBE >= 0, PROBE < vs.src_len), veq(vs.elem(PROBE), ovs.elem(PROBE))))
+        sol = z3.Solver()
+        sol.set('timeout', 2000)
+        sol.add(*ctx.pc)
+        sol.add(z3.Not(goal))
+        if sol.check() == z3.unsat:
+            key = k2
+            break
+    if key is None:
+        key = (sq, vs.src_len.sexpr(), to_pyval_id(vs.elem(PROBE)))
         nm = f'fold!{len(table)}!{len(I.ex.stack)}'
         funcs = _leaf_funcs(nm, init)
-        table[key] = (funcs, {})
+        table[key] = (funcs, {}, vs)
         ctx.add(veq(_state_at(funcs, z3.IntVal(0)), init))
-    funcs, done = table[key]
+    funcs, done, _ = table[key]
     ks = z3.simplify(kt)
     # unfold at k = t + 1
     t = None
@@ -406,3 +424,27 @@ def to_pyval_id(v):
         return to_pyval(v).sexpr()
     except Unsupported:
         return id(type(v))
+
+
+# ------------------------------------------------------------------ more sorts
+_base_fresh = fresh_of_sort
+
+
+def fresh_of_sort(I, sort, name):      # noqa: F811  (extends the basic sorts)
+    if sort == 'ellipsis':
+        return ELLIPSIS
+    if sort == 'none':
+        return NONE
+    if sort.startswith('alt:'):
+        alts = sort[4:].split('|')
+        for a in alts[:-1]:
+            if I.ex.choose(z3.Bool(fresh_name(f'{name}.is_{a}'))):
+                return fresh_of_sort(I, a, name)
+        return fresh_of_sort(I, alts[-1], name)
+    if sort.startswith('gen_'):
+        return _base_fresh(I, 'seq_' + sort[4:], name).with_kind('gen')
+    if sort == 'name':      # a column / vector name: None or a string
+        if I.ex.choose(z3.Bool(fresh_name(f'{name}.isnone'))):
+            return NONE
+        return VStr(z3.String(fresh_name(name)))
+    return _base_fresh(I, sort, name)
